@@ -7,11 +7,12 @@ package main
 import (
 	"encoding/json"
 	"fmt"
+	"strings"
 )
 
 func lazyPrograms() (ids []string, progs [][]node) {
 	routes := []string{"direct", "alias", "param", "computed", "apply", "applylist", "map", "rec", "after-return", "lazy-error-unforced", "strict-error",
-		"nested-caller", "nested-caller-returned", "apply-data", "map-data"}
+		"nested-caller", "nested-caller-returned", "apply-data", "map-data", "rec-reloaded", "direct-reloaded"}
 	patterns := []string{"none", "once", "twice", "substitute", "reverse"}
 	for n := 1; n <= 3; n++ {
 		for mask := 0; mask < 1<<n; mask++ {
@@ -98,6 +99,26 @@ func lazyProgram(n, mask int, variadic bool, route, pat string) []node {
 		args = append(args, nApp("tr", nInt(40), nInt(7)), nApp("tr", nInt(41), nInt(8)))
 	}
 	defF := nDefn("F", ps, rest, body...)
+	// an earlier definition of F with the lazy positions complemented (same arity), as left by an earlier load
+	var ops []param
+	for i := 0; i < n; i++ {
+		name := fmt.Sprintf("p%d", i)
+		if !lazy(i) {
+			name = "#" + name
+		}
+		ops = append(ops, param{name, !lazy(i)})
+	}
+	switch route {
+	case "direct-reloaded":
+		return []node{nDefn("F", ops, rest, nInt(0)), defF, nCall(nSym("F"), args...)}
+	case "rec-reloaded":
+		ps2 := append([]param{{"cnt", false}}, ps...)
+		ops2 := append([]param{{"cnt", false}}, ops...)
+		rargs := append([]node{nApp("-", nSym("cnt"), nInt(1))}, args...)
+		fbody := nCond([]clause{{nApp("<=", nSym("cnt"), nInt(0)), nBegin(body...)}}, nCall(nSym("F"), rargs...))
+		first := append([]node{nInt(1)}, args...)
+		return []node{nDefn("F", ops2, rest, nInt(0)), nDefn("F", ps2, rest, fbody), nCall(nSym("F"), first...)}
+	}
 	switch route {
 	case "direct", "lazy-error-unforced", "strict-error":
 		return []node{defF, nCall(nSym("F"), args...)}
@@ -194,7 +215,12 @@ func init() {
 		ids, progs := lazyPrograms()
 		for i := range ids {
 			if c.mine(i) {
-				w.write(runSem(ids[i], "lazy", progs[i], renderProgram(progs[i], nil)))
+				text := renderProgram(progs[i], nil)
+				if strings.Contains(ids[i], "-reloaded-") {
+					// the earlier definition was left by an earlier evaluation
+					text = renderSplit(progs[i], 1)
+				}
+				w.write(runSem(ids[i], "lazy", progs[i], text))
 			}
 		}
 		return 0
